@@ -5,7 +5,10 @@ Property theorems only (model and spec: KinModel/Body.lean; helper lemmas: KinMo
 import KinModel.Body
 import KinModel.Lemmas.C06
 import KinModel.Lemmas.C06Text
+import KinModel.Lemmas.C06Dflt
 import KinModel.Gen.BodyDecoders
+import KinModel.Gen.BodyEncoders
+import KinModel.Gen.MediaTypeMatch
 namespace KinModel.Body
 
 /-! ## (T) the decoder registry of the model is the one the source builds -/
@@ -31,6 +34,61 @@ theorem registry_routes :
     lookup "multipart/form-data".toList registry = some .multipart ∧
     lookup "text/plain".toList registry = some .plain ∧
     (keys registry).Nodup := by decide
+
+/-! ## (T2) the media-type matching code of the model is the code of the source -/
+
+def stepOfGen : Gen.MatchStep → Option Step
+  | .emptyRet k => some (.emptyRet k.toList)
+  | .tryMime => some .tryMime
+  | .cutFirst c => some (.cutFirst c)
+  | .cutFirstOrNil c s => some (.cutFirstOrNil c s.toList)
+  | .retKey k => some (.retKey k.toList)
+  | .prefixBefore c => some (.prefixBefore c)
+  | .unrecognised _ => none
+
+/-- every statement of `Content.Get` and of `parseMediaType` was read (no `unrecognised` row), and statement by
+statement they are the programs the model was written from -/
+theorem matching_code_is_source :
+    Gen.contentGetSteps.map stepOfGen = contentGetProgram.map some ∧
+    Gen.parseMediaTypeSteps.map stepOfGen = parseMediaTypeProgram.map some := by decide
+
+theorem majorType_eq_cut (m : Str) : majorType m = if m.contains '/' then some (cutAt '/' m) else none := by
+  induction m with
+  | nil => rfl
+  | cons c cs ih =>
+    unfold majorType cutAt
+    by_cases hc : c = '/'
+    · simp [hc]
+    · have hc' : ('/' == c) = false := by simpa using fun h => hc h.symm
+      simp only [hc, if_false, ih, List.contains_cons, hc', Bool.false_or, ne_eq, not_false_eq_true, decide_true,
+        List.takeWhile_cons_of_pos]
+      cases cs.contains '/' <;> simp [cutAt]
+
+/-- **the model of `Content.Get` is the meaning of that program**, for every content map and every header text;
+and `base` (the model of `parseMediaType`) is the meaning of the one-step program -/
+theorem contentGet_is_program {α : Type} (c : List (Str × α)) (mime : Str) :
+    runSteps c contentGetProgram mime = contentGet c mime := by
+  unfold contentGetProgram contentGet
+  simp only [runSteps]
+  by_cases hm : mime = []
+  · simp [hm]
+  · simp only [hm, if_false]
+    cases lookup mime c with
+    | some v => rfl
+    | none =>
+      simp only
+      have hb : cutAt ';' mime = base mime := rfl
+      rw [hb]
+      cases lookup (base mime) c with
+      | some v => rfl
+      | none =>
+        simp only
+        rw [majorType_eq_cut]
+        cases (base mime).contains '/' with
+        | false => simp
+        | true => simp only [if_true]
+
+theorem base_is_program (m : Str) : base m = cutAt ';' m := rfl
 
 /-! ## (a) media-type selection -/
 
@@ -88,6 +146,119 @@ theorem undeclared_iff {α : Type} (c : List (Str × α)) (mime : Str) :
     cases hk : lookup k c with
     | none => simpa using ih
     | some v => simp
+
+/-- **C06(a), key by key.** Against the rank of every declared key (no search order involved): the entry chosen
+by `Content.Get` is declared under a matching key, and **no other declared key matches more specifically** — for
+every pair of declared keys that match the header, the one of lower rank wins; nothing is chosen iff no declared
+key matches at all. (Keys of the content map are distinct.) -/
+theorem contentGet_minimal_rank {α : Type} (c : List (Str × α)) (mime : Str) (v : α)
+    (h : contentGet c mime = some v) :
+    ∃ k r, (k, v) ∈ c ∧ rank mime k = some r ∧ ∀ k' v', (k', v') ∈ c → ∀ r', rank mime k' = some r' → r ≤ r' := by
+  have nomem : ∀ k' (v' : α), (k', v') ∈ c → lookup k' c ≠ none := by
+    intro k' v' hm hl
+    obtain ⟨w, hw⟩ := lookup_isSome_of_mem_keys k' c (mem_keys_of_mem k' v' c hm)
+    rw [hl] at hw; cases hw
+  unfold contentGet at h
+  by_cases hm : mime = []
+  · simp only [hm, if_true] at h
+    refine ⟨star, 3, lookup_some_mem _ _ _ h, by simp [rank, hm], ?_⟩
+    intro k' v' _ r' hr
+    simp only [rank, hm, if_true] at hr
+    split at hr <;> simp_all
+  · simp only [hm, if_false] at h
+    cases h1 : lookup mime c with
+    | some w =>
+      simp only [h1, Option.some.injEq] at h; subst h
+      exact ⟨mime, 0, lookup_some_mem _ _ _ h1, by simp [rank, hm], fun _ _ _ _ _ => Nat.zero_le _⟩
+    | none =>
+      simp only [h1] at h
+      cases h2 : lookup (base mime) c with
+      | some w =>
+        simp only [h2, Option.some.injEq] at h; subst h
+        have hne : base mime ≠ mime := by intro e; rw [e] at h2; rw [h1] at h2; cases h2
+        refine ⟨base mime, 1, lookup_some_mem _ _ _ h2, by simp [rank, hm, hne], ?_⟩
+        intro k' v' hk' r' hr
+        simp only [rank, hm, if_false] at hr
+        by_cases e0 : k' = mime
+        · subst e0; exact absurd h1 (nomem _ _ hk')
+        · simp only [e0, if_false] at hr
+          by_cases e1 : k' = base mime
+          · simp only [e1, if_true, Option.some.injEq] at hr; omega
+          · simp only [e1, if_false] at hr
+            cases hmt : majorType (base mime) with
+            | none => simp [hmt] at hr
+            | some t => simp only [hmt] at hr; split at hr <;> (try split at hr) <;> simp_all <;> omega
+      | none =>
+        simp only [h2] at h
+        cases hmt : majorType (base mime) with
+        | none => simp [hmt] at h
+        | some t =>
+          simp only [hmt] at h
+          cases h3 : lookup (t ++ slashStar) c with
+          | some w =>
+            simp only [h3, Option.some.injEq] at h; subst h
+            have hn0 : t ++ slashStar ≠ mime := by intro e; rw [e] at h3; rw [h1] at h3; cases h3
+            have hn1 : t ++ slashStar ≠ base mime := by intro e; rw [e] at h3; rw [h2] at h3; cases h3
+            refine ⟨t ++ slashStar, 2, lookup_some_mem _ _ _ h3, by simp [rank, hm, hn0, hn1, hmt], ?_⟩
+            intro k' v' hk' r' hr
+            simp only [rank, hm, if_false, hmt] at hr
+            by_cases e0 : k' = mime
+            · subst e0; exact absurd h1 (nomem _ _ hk')
+            · by_cases e1 : k' = base mime
+              · subst e1; exact absurd h2 (nomem _ _ hk')
+              · simp only [e0, e1, if_false] at hr
+                split at hr <;> (try split at hr) <;> simp_all <;> omega
+          | none =>
+            simp only [h3] at h
+            have hn0 : star ≠ mime := by intro e; rw [← e] at h1; rw [h1] at h; cases h
+            have hn1 : star ≠ base mime := by intro e; rw [← e] at h2; rw [h2] at h; cases h
+            have hn2 : star ≠ t ++ slashStar := by intro e; rw [← e] at h3; rw [h3] at h; cases h
+            refine ⟨star, 3, lookup_some_mem _ _ _ h, by simp [rank, hm, hn0, hn1, hn2, hmt], ?_⟩
+            intro k' v' hk' r' hr
+            simp only [rank, hm, if_false, hmt] at hr
+            by_cases e0 : k' = mime
+            · subst e0; exact absurd h1 (nomem _ _ hk')
+            · by_cases e1 : k' = base mime
+              · subst e1; exact absurd h2 (nomem _ _ hk')
+              · by_cases e2 : k' = t ++ slashStar
+                · subst e2; exact absurd h3 (nomem _ _ hk')
+                · simp only [e0, e1, e2, if_false] at hr
+                  split at hr <;> simp_all
+
+/-- … and nothing is chosen exactly when no declared key matches the header at any level -/
+theorem contentGet_none_iff_no_rank {α : Type} (c : List (Str × α)) (mime : Str) :
+    contentGet c mime = none ↔ ∀ k v, (k, v) ∈ c → rank mime k = none := by
+  rw [undeclared_iff]
+  have key : ∀ k, rank mime k ≠ none ↔ k ∈ candidates mime := by
+    intro k
+    unfold rank candidates
+    by_cases hm : mime = []
+    · simp only [hm, if_true, List.mem_singleton]; split <;> simp_all
+    · simp only [hm, if_false]
+      by_cases e0 : k = mime
+      · cases majorType (base mime) <;> simp [e0]
+      · by_cases e1 : k = base mime
+        · subst e1; cases majorType (base mime) <;> simp [e0]
+        · cases hmt : majorType (base mime) with
+          | none => simp [e0, e1]
+          | some t =>
+            simp only [e0, e1, if_false, List.mem_cons, false_or, List.not_mem_nil, or_false]
+            split <;> (try split) <;> simp_all
+  constructor
+  · intro h k v hkv
+    cases hr : rank mime k with
+    | none => rfl
+    | some r =>
+      have hc := (key k).mp (by rw [hr]; simp)
+      have := h k hc
+      obtain ⟨w, hw⟩ := lookup_isSome_of_mem_keys k c (mem_keys_of_mem k v c hkv)
+      rw [this] at hw; cases hw
+  · intro h k hk
+    cases hl : lookup k c with
+    | none => rfl
+    | some w =>
+      have := h k w (lookup_some_mem k c w hl)
+      exact absurd this ((key k).mpr hk)
 
 example : contentGet [("application/json".toList, 1), ("application/*".toList, 2), (star, 3)]
     "application/json; charset=utf-8".toList = some 1 := by decide
@@ -216,11 +387,14 @@ theorem satReqB_iff (exro : Bool) : ∀ (s : RS) (v : V), satReqB exro s v = tru
     refine satCB_iff false _ _ ?_ s
     intro s'
     unfold ownObj OwnObj
-    rw [ih.1]
-    simp only [Bool.and_eq_true, permits_iff, roLoopOK_iff, requiredOK_iff, ih.2 s']
+    have hlen : (satFieldsB exro kvs).length = (SatFields exro kvs).length := by
+      have := congrArg List.length ih.1
+      simpa [keys] using this
+    rw [ih.1, hlen]
+    simp only [Bool.and_eq_true, permits_iff, roLoopOK_iff, requiredOK_iff, countOK_iff, ih.2 s']
     constructor
-    · rintro ⟨⟨⟨h1, h2⟩, h3⟩, h4⟩; exact ⟨h1, h3, h4, h2⟩
-    · rintro ⟨h1, h3, h4, h2⟩; exact ⟨⟨⟨h1, h2⟩, h3⟩, h4⟩
+    · rintro ⟨⟨⟨⟨h1, h2⟩, hc⟩, h3⟩, h4⟩; exact ⟨h1, h3, hc.1, hc.2, h4, h2⟩
+    · rintro ⟨h1, h3, hc1, hc2, h4, h2⟩; exact ⟨⟨⟨⟨h1, h2⟩, ⟨hc1, hc2⟩⟩, h3⟩, h4⟩
   case inil => intro it; simp [satItemsB, SatItems]
   case icons =>
     intro v r ih1 ih2 it
@@ -307,9 +481,9 @@ theorem readOnly_inside_members :
     let pa := RS.leaf (some .string) false true false 0 none [] [] none none
     let m := RS.leaf none false false false 0 none [(['a'], pa)] [['a']] none none
     let other := RS.leaf (some .string) false false false 0 none [] [] none none
-    let sAny := RS.mk (some .object) false false false 0 none [] [] none none none [] [other, m] []
-    let sOne := RS.mk (some .object) false false false 0 none [] [] none none none [other, m] [] []
-    let sAll := RS.mk (some .object) false false false 0 none [] [] none none none [] [] [m]
+    let sAny := RS.mk (some .object) false false false 0 none [] [] none none none [] [other, m] [] {}
+    let sOne := RS.mk (some .object) false false false 0 none [] [] none none none [other, m] [] [] {}
+    let sAll := RS.mk (some .object) false false false 0 none [] [] none none none [] [] [m] {}
     let sent := V.obj [(['a'], .str ['x'])]
     [sAny, sOne, sAll].all (fun s => visit false s (.obj []) && !visit false s sent && visit true s sent &&
       satReqB false s (.obj []) && !satReqB false s sent && satReqB true s sent) = true := by decide
@@ -319,10 +493,10 @@ member, and a nullable schema admits it before any composition is looked at (the
 example :
     let strN := RS.leaf (some .string) true false false 0 none [] [] none none
     let str := RS.leaf (some .string) false false false 0 none [] [] none none
-    visit false (RS.mk none false false false 0 none [] [] none none none [] [strN] []) .null = true ∧
-    visit false (RS.mk none false false false 0 none [] [] none none none [] [] [strN, str]) .null = false ∧
-    visit false (RS.mk none true false false 0 none [] [] none none none [] [] [str]) .null = true ∧
-    visit false (RS.mk none false false false 0 none [] [] none none (some strN) [] [strN] []) .null = false := by decide
+    visit false (RS.mk none false false false 0 none [] [] none none none [] [strN] [] {}) .null = true ∧
+    visit false (RS.mk none false false false 0 none [] [] none none none [] [] [strN, str] {}) .null = false ∧
+    visit false (RS.mk none true false false 0 none [] [] none none none [] [] [str] {}) .null = true ∧
+    visit false (RS.mk none false false false 0 none [] [] none none (some strN) [] [strN] [] {}) .null = false := by decide
 
 /-- **write-only properties are allowed in requests**: clearing every `writeOnly` flag of a schema (at any
 depth of properties, items and composition members) never changes the request-side verdict, for either
@@ -565,8 +739,8 @@ theorem mergeKV_nodup (l : List (Str × V)) (h : (keys l).Nodup) : mergeKV l = s
 theorem encoding_applies_inside_members :
     let arrInt := RS.leaf (some .array) false false false 0 none [] [] none (some (RS.leaf (some .integer) false false false 0 none [] [] none none))
     let m := RS.leaf none false false false 0 none [(['a'], arrInt)] [] none none
-    let sAll := RS.mk (some .object) false false false 0 none [] [] none none none [] [] [m]
-    let sAny := RS.mk (some .object) false false false 0 none [] [] none none none [] [m] []
+    let sAll := RS.mk (some .object) false false false 0 none [] [] none none none [] [] [m] {}
+    let sAny := RS.mk (some .object) false false false 0 none [] [] none none none [] [m] [] {}
     let encs := [(['a'], ({ style := "pipeDelimited".toList, explode := some false } : Enc))]
     let form := some [(['a'], ["1|2".toList])]
     [sAll, sAny].all (fun s =>
@@ -625,6 +799,28 @@ theorem assemble_lookup (vals : List (Str × V)) (props : List (Str × RS)) (k :
       | nil => simp only; exact ih h
       | cons w ws => simp only [lookup, hk, if_false]; exact ih h
 
+/-- **C06(d), multipart.** `MultipartBodyDecoder` builds exactly the object the parts encode — every part declared
+(or ignorable) and decodable under its own Content-Type, array properties collect all their parts in order, other
+properties take their first part, properties without a part are absent — and fails exactly when the parts encode
+no object; the declarative reading (`specMultipart`) uses no loop of the decoder and no order of the checks -/
+theorem multipart_decodes_what_parts_encode (reg : List (Str × DecK)) (s : RS) (ps : List Part)
+    (h : tyIs s.ty .object = true) :
+    (∀ v, decodeMultipart reg s (some ps) = .val v → specMultipart reg s ps = some v) ∧
+    (decodeMultipart reg s (some ps) = .err → specMultipart reg s ps = none) :=
+  ⟨(decodeMultipart_spec reg s ps h).1, (decodeMultipart_spec reg s ps h).2.1⟩
+
+example :
+    let strA := RS.leaf (some .array) false false false 0 none [] [] none (some (RS.leaf (some .string) false false false 0 none [] [] none none))
+    let s := RS.leaf (some .object) false false false 0 none [(['a'], strA), (['b'], RS.leaf (some .integer) false false false 0 none [] [] none none)] [] (some true) none
+    let ps : List Part := [⟨['a'], [], ['x'], none, none, none⟩, ⟨['z'], [], ['q'], none, none, none⟩,
+      ⟨['b'], "application/json".toList, ['5'], some (.int 5), none, none⟩, ⟨['a'], [], ['y'], none, none, none⟩]
+    (match specMultipart registry s ps with
+     | some v => V.beq v (.obj [(['a'], .arr [.str ['x'], .str ['y']]), (['b'], .int 5)])
+     | none => false) = true ∧
+    (match decodeMultipart registry s (some ps) with
+     | .val v => V.beq v (.obj [(['a'], .arr [.str ['x'], .str ['y']]), (['b'], .int 5)])
+     | _ => false) = true := by decide
+
 /-- JSON decoder: the decoded value is what `encoding/json` makes of the *whole* text; text that is not
 exactly one JSON value (trailing data, finding #36 — now fixed) is a decoding error -/
 theorem json_decoder (text : Str) (j : Option V) :
@@ -651,9 +847,19 @@ theorem decode_agrees (reg : List (Str × DecK)) (rb : ReqBody) (ct : Str) (b : 
     | json => cases b.json <;> simp [decodeSimple]
     | plain => simp [decodeSimple]
     | file => simp [decodeSimple]
-    | yaml => simp [decodeSimple]
-    | csv => simp [decodeSimple]
-    | multipart => cases decodeMultipart reg s b.parts <;> simp
+    | yaml => cases b.yaml <;> simp [decodeSimple]
+    | csv => cases b.csv <;> simp [decodeSimple]
+    | multipart =>
+      simp only
+      cases hty : tyIs s.ty .object with
+      | false => simp [decodeMultipart, hty]
+      | true =>
+        cases hp : b.parts with
+        | none => simp [decodeMultipart, hty]
+        | some ps =>
+          obtain ⟨m1, m2, _, _⟩ := decodeMultipart_spec reg s ps hty
+          simp only [if_true, Option.bind_some]
+          exact ⟨m1, m2⟩
     | urlencoded =>
       simp only
       unfold decodeForm
@@ -863,5 +1069,418 @@ example :
     validateRequestBody registry rb ct bad true = .ok ∧ acceptB registry rb ct bad true = true ∧
     validateRequestBody registry rb (exStr "text/plain") good false = .ok ∧
     validateRequestBody registry ⟨false, [(exStr "application/json", ⟨none, []⟩)]⟩ (exStr "text/plain") good false = .badCT := by decide
+
+/-! ## (e) default-setting (`Options.SkipSettingDefaults`; off = defaults ARE set, the default of openapi3filter)
+
+The property text reads the schema as a request and says nothing about `default`: the specification (`SatReq`,
+`Accept`) ignores the keyword. The code, with `DefaultsSet` installed, injects defaults *while* it validates
+(`visD`). What is proved: with defaults skipped nothing changes (`skipDefaults_is_visit`); with defaults set the
+verdict is still the property's wherever no default fires on the value — any schema, compositions included — or
+the schema is composition-free and every injectable default conforms to its own schema and is not required
+(`defaults_neutral`, `accept_iff_partial_D`); a read-only property never receives its default in a request
+(`readOnly_default_never_injected`, the class of seeded change r3-m2). Where a default does decide the verdict
+(a required property satisfied by its default, a default that violates its own schema, a default injected by one
+`allOf` member and rejected by another, a second `oneOf` member that matches thanks to its default) the verdict
+is the one of the COMPLETED value — that is what C13 demands ("the resulting request validates again") — and lies
+outside the request-side reading of C06: witnesses below, compared model-vs-implementation only in the run. -/
+
+/-- the translator could read the encoder registry of the source -/
+theorem encoder_table_recognised :
+    Gen.bodyEncoders.all (fun r => match r with | .unrecognised _ => false | .reg _ _ => true) = true := by decide
+
+/-- a body encoder exists for exactly the media types that `JSONBodyDecoder` decodes — entry by entry, in the
+order of the source — and all of them are `json.Marshal`: this is `hasEncoder` -/
+theorem encoders_are_the_json_decoders :
+    Gen.bodyEncoders = (registrySrc.filter fun kd => kd.2 == "JSONBodyDecoder").map fun kd => .reg kd.1 "json.Marshal" := by
+  decide
+
+theorem hasEncoder_is_table :
+    registry.all (fun kd => hasEncoder (some kd.2) ==
+      Gen.bodyEncoders.any (fun r => match r with | .reg k _ => k.toList == kd.1 | .unrecognised _ => false)) = true := by
+  decide
+
+/-- **SkipSettingDefaults = true.** Without `DefaultsSet` the value-threading validator `visD` is `visit`: same
+verdict, value untouched — every schema (with or without `default` keywords), every value -/
+theorem skipDefaults_is_visit (exro : Bool) (s : RS) (v : V) (hs : s.wf = true) (hv : v.wf = true) :
+    visD false exro s v = (if visit exro s v then some v else none) :=
+  visD_off exro v hv s hs
+
+/-- the model of `ValidateRequestBody` with defaults skipped is the model without the option -/
+theorem validateRequestBodyD_skip (reg : List (Str × DecK)) (rb : ReqBody) (ct : Str) (b : BodyIn) (exro : Bool) :
+    validateRequestBodyD reg rb ct b exro false = validateRequestBody reg rb ct b exro := by
+  unfold validateRequestBodyD validateRequestBody validateValue
+  rfl
+
+/-- **no default fires ⇒ nothing changes**, for every schema of the fragment (compositions included) -/
+theorem no_fire_no_change (exro : Bool) (s : RS) (v : V) (h : firesD exro s v = false) :
+    visD true exro s v = visD false exro s v :=
+  visD_on_eq_off_of_not_fires exro s v h
+
+/-- a schema without any `default` never fires -/
+theorem no_default_no_fire (exro : Bool) : ∀ s v, hasDflt s = false → firesD exro s v = false := by
+  apply rs_induct_full
+  intro t n r w ml mx props req a items nt oneOf anyOf allOf dflt hp hi hn h1 h2 h3 v hd
+  unfold hasDflt at hd
+  simp only [Bool.or_eq_false_iff] at hd
+  obtain ⟨⟨⟨⟨⟨⟨_, dp⟩, di⟩, dn⟩, d1⟩, d2⟩, d3⟩ := hd
+  have hL : ∀ l : List RS, (∀ x ∈ l, ∀ v, hasDflt x = false → firesD exro x v = false) → hasDfltL l = false →
+      ∀ v, firesAny exro l v = false ∧ firesUpto exro l v = false ∧ firesAll exro l v = false := by
+    intro l hl
+    induction l with
+    | nil => intro _ _; exact ⟨rfl, rfl, rfl⟩
+    | cons x r ih =>
+      intro hd v
+      unfold hasDfltL at hd
+      simp only [Bool.or_eq_false_iff] at hd
+      have hx := fun v => hl x (by simp) v hd.1
+      have ihr := ih (fun y hy => hl y (by simp [hy])) hd.2
+      unfold firesAny firesUpto firesAll firesAllStep
+      refine ⟨by simp [hx v, (ihr v).1], by simp [hx v, (ihr v).2.1], ?_⟩
+      rw [hx v]
+      cases visD true exro x v with
+      | none => rfl
+      | some v' => simp [(ihr v').2.2]
+  have hP : ∀ ps : List (Str × RS), (∀ kp ∈ ps, ∀ v, hasDflt kp.2 = false → firesD exro kp.2 v = false) →
+      hasDfltP ps = false → ∀ kvs, firesProps exro ps kvs = false ∧ injects exro ps kvs = false := by
+    intro ps hps
+    induction ps with
+    | nil => intro _ _; exact ⟨rfl, rfl⟩
+    | cons e r ih =>
+      obtain ⟨k, p⟩ := e
+      intro hd kvs
+      unfold hasDfltP at hd
+      simp only [Bool.or_eq_false_iff] at hd
+      have ihr := ih (fun y hy => hps y (by simp [hy])) hd.2
+      have hpd : p.dflt = none := by
+        cases p; unfold hasDflt at hd; simp only [Bool.or_eq_false_iff] at hd
+        simpa [RS.dflt, RS.extra] using hd.1.1.1.1.1.1.1
+      constructor
+      · unfold firesProps firesPropStep
+        cases hl : lookup k kvs with
+        | none => simp only; exact (ihr kvs).1
+        | some x =>
+          simp only [hps (k, p) (by simp) x hd.1, Bool.false_or]
+          cases visD true exro p x with
+          | none => exact (ihr kvs).1
+          | some x' => exact (ihr _).1
+      · have := (ihr kvs).2
+        unfold injects at this ⊢
+        simp only [List.any_cons, this, Bool.or_false]
+        simp [dfltFor, hpd]
+  have c1 := hL oneOf h1 d1
+  have c2 := hL anyOf h2 d2
+  have c3 := hL allOf h3 d3
+  have cp := hP props hp dp
+  have cn : ∀ v, firesNot exro nt v = false := by
+    intro v
+    cases nt with
+    | none => rfl
+    | some x => unfold firesNot; unfold hasDfltO at dn; exact hn x rfl v dn
+  have ci : ∀ xs, firesItems exro items xs = false := by
+    intro xs
+    cases items with
+    | none => rfl
+    | some it =>
+      unfold firesItems; unfold hasDfltO at di
+      apply List.any_eq_false.mpr
+      intro x _
+      simp [hi it rfl x di]
+  have cown : ∀ v, firesOwn exro (RS.mk t n r w ml mx props req a items nt oneOf anyOf allOf dflt)
+      (firesProps exro props) (firesItems exro items) v = false := by
+    intro v
+    cases v with
+    | obj kvs => simp [firesOwn, RS.props, (cp kvs).2, (cp _).1]
+    | arr xs => simp [firesOwn, ci xs]
+    | null => rfl
+    | bool _ => rfl
+    | int _ => rfl
+    | half _ => rfl
+    | str _ => rfl
+  unfold firesD firesK
+  simp only [cn, (c1 _).1, (c2 _).2.1, (c3 _).2.2, cown, Bool.false_or, Bool.or_false]
+  split
+  · rfl
+  · split
+    · rfl
+    · cases visNot true exro nt v with
+      | false => rfl
+      | true =>
+        simp only [Bool.true_and]
+        split
+        · rfl
+        · split
+          · rfl
+          · split
+            · rfl
+            · split <;> rfl
+
+/-- **C06 under default-setting, schema level.** Where defaults are neutral — no default fires on this value (any
+schema), or the schema is composition-free and its injectable defaults conform and are not required — the
+validator with `DefaultsSet` accepts exactly when the value satisfies the schema read as a request. -/
+theorem defaults_neutral (exro : Bool) (s : RS) (v : V) (hs : s.wf = true) (hv : v.wf = true)
+    (hn : defaultsNeutral exro s v = true) : (visD true exro s v).isSome = true ↔ SatReq exro s v := by
+  rw [visD_neutral exro s v hs hv hn]; exact visit_asreq_iff exro s v
+
+/-- in particular for every schema that declares no default at all -/
+theorem no_default_asreq_iff (exro : Bool) (s : RS) (v : V) (hs : s.wf = true) (hv : v.wf = true)
+    (hd : hasDflt s = false) : (visD true exro s v).isSome = true ↔ SatReq exro s v :=
+  defaults_neutral exro s v hs hv (by simp [defaultsNeutral, no_default_no_fire exro s v hd])
+
+/-- **a read-only property never receives its default in a request** (read-only validation on): whatever the
+other properties and the value are, the key stays absent after the injection loop — so the very next check
+("readOnly property in request") cannot be provoked by the document's own default (class of seeded change r3-m2) -/
+theorem readOnly_default_never_injected (props : List (Str × RS)) (kvs : List (Str × V)) (k : Str) (p : RS)
+    (hn : (keys props).Nodup) (hm : (k, p) ∈ props) (hro : p.ro = true) (habs : lookup k kvs = none) :
+    lookup k (inject false props kvs) = none := by
+  rw [lookup_inject false props hn k kvs, habs, lookup_of_mem_nodup k p props hn hm]
+  simp [dfltFor, reqRO, hro]
+
+/-- … and the keys that were absent and are present afterwards are exactly those of the properties that are not
+read-only-in-request and have a default; present keys (null included, repair c740938) keep their value -/
+theorem inject_spec (exro : Bool) (props : List (Str × RS)) (kvs : List (Str × V)) (k : Str)
+    (hn : (keys props).Nodup) :
+    lookup k (inject exro props kvs) =
+      (match lookup k kvs with
+       | some x => some x
+       | none => (match lookup k props with | some p => dfltFor exro p | none => none)) :=
+  lookup_inject exro props hn k kvs
+
+def exIntD (ro wo : Bool) (d : Option V) : RS := RS.mk (some .integer) false ro wo 0 none [] [] none none none [] [] [] { dflt := d }
+def exObjD (props : List (Str × RS)) (req : List Str) : RS := RS.leaf (some .object) false false false 0 none props req none none
+
+/-- r3-m2 regression: `{a: integer, readOnly, default 1}`; the request `{}` omits `a`: accepted with and without
+default-setting, with and without the exclusion option; as a member of `allOf` / `anyOf` / `oneOf` too; sending
+`a` is rejected as before -/
+theorem readOnly_default_regression :
+    let s := exObjD [(['a'], exIntD true false (some (.int 1)))] []
+    let wrap := fun (k : Nat) => RS.mk (some .object) false false false 0 none [] [] none none none
+      (if k = 0 then [s] else []) (if k = 1 then [s] else []) (if k = 2 then [s] else []) {}
+    [s, wrap 0, wrap 1, wrap 2].all (fun s =>
+      (visD true false s (.obj [])).isSome && (visD true true s (.obj [])).isSome && visit false s (.obj []) &&
+      !firesD false s (.obj []) && firesD true s (.obj []) &&
+      !(visD true false s (.obj [(['a'], .int 1)])).isSome && satReqB false s (.obj [])) = true := by decide
+
+/-- a write-only property and a plain property do receive their defaults; the completed value is what the rest of
+the validation sees -/
+example :
+    let s := exObjD [(['a'], exIntD false true (some (.int 1))), (['b'], exIntD false false (some (.int 2)))] [['b']]
+    (match visD true false s (.obj []) with
+     | some v' => V.beq v' (.obj [(['a'], .int 1), (['b'], .int 2)])
+     | none => false) = true ∧
+    (visD false false s (.obj [])).isSome = false := by decide
+
+/-- **witnesses: where a default decides the verdict** (outside `defaultsNeutral`; model ≠ request-side reading):
+(1) a required property satisfied by its default — accepted, the value `{}` does not satisfy `required`;
+(2) a default that violates its own schema — the valid request `{}` is rejected;
+(3) `allOf`: the default injected by the first member is an undeclared key for the second (`additionalProperties:
+    false`) — the valid request `{}` is rejected;
+(4) `oneOf`: the second member matches only thanks to its default — "more than one" — the valid `{"a":5}` is rejected -/
+theorem default_decides_witnesses :
+    let pa := exIntD false false (some (.int 1))
+    let s1 := exObjD [(['a'], pa)] [['a']]
+    let s2 := exObjD [(['a'], exIntD false false (some (.str ['x'])))] []
+    let m1 := RS.leaf none false false false 0 none [(['a'], pa)] [] none none
+    let m2 := RS.leaf none false false false 0 none [] [] (some false) none
+    let s3 := RS.mk (some .object) false false false 0 none [] [] none none none [] [] [m1, m2] {}
+    let o1 := RS.leaf none false false false 0 none [(['a'], pa)] [['a']] none none
+    let o2 := RS.leaf none false false false 0 none [(['b'], exIntD false false (some (.int 2)))] [['b']] none none
+    let s4 := RS.mk (some .object) false false false 0 none [] [] none none none [o1, o2] [] [] {}
+    ((visD true false s1 (.obj [])).isSome = true ∧ satReqB false s1 (.obj []) = false ∧ defaultsNeutral false s1 (.obj []) = false) ∧
+    ((visD true false s2 (.obj [])).isSome = false ∧ satReqB false s2 (.obj []) = true ∧ defaultsNeutral false s2 (.obj []) = false) ∧
+    ((visD true false s3 (.obj [])).isSome = false ∧ satReqB false s3 (.obj []) = true ∧ defaultsNeutral false s3 (.obj []) = false) ∧
+    ((visD true false s4 (.obj [(['a'], .int 5)])).isSome = false ∧ satReqB false s4 (.obj [(['a'], .int 5)]) = true ∧
+      defaultsNeutral false s4 (.obj [(['a'], .int 5)]) = false) := by decide
+
+/-- (5) `maxProperties` exceeded only by the injected default — the valid request `{"b":1}` is rejected;
+(6) `minProperties` reached only thanks to the injected default — `{}` is accepted though it has no member -/
+theorem default_counts_witnesses :
+    let pa := exIntD false false (some (.int 1))
+    let pb := exIntD false false none
+    let s5 := RS.mk (some .object) false false false 0 none [(['a'], pa), (['b'], pb)] [] none none none [] [] [] { maxProps := some 1 }
+    let s6 := RS.mk (some .object) false false false 0 none [(['a'], pa)] [] none none none [] [] [] { minProps := 1 }
+    ((visD true false s5 (.obj [(['b'], .int 1)])).isSome = false ∧ satReqB false s5 (.obj [(['b'], .int 1)]) = true ∧
+      defaultsNeutral false s5 (.obj [(['b'], .int 1)]) = false ∧ (visD false false s5 (.obj [(['b'], .int 1)])).isSome = true) ∧
+    ((visD true false s6 (.obj [])).isSome = true ∧ satReqB false s6 (.obj []) = false ∧
+      defaultsNeutral false s6 (.obj []) = false) := by decide
+
+/-- non-vacuity of `defaults_neutral`: a default fires and is neutral (optional property, conforming default,
+nested completion) — both verdicts occur -/
+example :
+    let inner := exObjD [(['k'], exIntD false false none), (['m'], exIntD false false (some (.int 7)))] []
+    let s := exObjD [(['o'], inner), (['n'], exIntD false false (some (.int 2)))] [['o']]
+    s.wf = true ∧ firesD false s (.obj [(['o'], .obj [])]) = true ∧ defaultsNeutral false s (.obj [(['o'], .obj [])]) = true ∧
+    (match visD true false s (.obj [(['o'], .obj [])]) with
+     | some v' => V.beq v' (.obj [(['o'], .obj [(['m'], .int 7)]), (['n'], .int 2)])
+     | none => false) = true ∧
+    visit false s (.obj [(['o'], .obj [])]) = true ∧
+    (visD true false s (.obj [])).isSome = false ∧ visit false s (.obj []) = false := by decide
+
+/- Full-strength statement (does NOT hold of the code, see `witness_noBodyEncoder` and `default_decides_witnesses`):
+     (validateRequestBodyD reg rb ct b exro ds).isOk = true ↔ Accept reg rb ct b exro  -/
+
+/-- **C06, main theorem with the option SkipSettingDefaults.** Outside the exclusion classes FormFieldUnparsable
+(#20) and NoBodyEncoder (F-C06-4), inside the model, and where defaults are neutral for the decoded value
+(`caseNeutral`: defaults skipped, or nothing fires, or composition-free with harmless defaults), request-body
+validation accepts exactly when the property says so. -/
+theorem accept_iff_partial_D (reg : List (Str × DecK)) (rb : ReqBody) (ct : Str) (b : BodyIn) (exro ds : Bool)
+    (hmod : validateRequestBodyD reg rb ct b exro ds ≠ .panic ∧ validateRequestBodyD reg rb ct b exro ds ≠ .unmodelled)
+    (hwf : formEncsWF reg rb ct b = true)
+    (h1 : exclFormUnparsable reg rb ct b = false)
+    (h2 : exclNoBodyEncoder reg rb ct b exro ds = false)
+    (hn : caseNeutral reg rb ct b exro ds = true) (hw : caseWF reg rb ct b = true) :
+    (validateRequestBodyD reg rb ct b exro ds).isOk = true ↔ Accept reg rb ct b exro := by
+  have e := validateRequestBodyD_eq reg rb ct b exro ds hmod.2 h2 hn hw
+  rw [e] at hmod ⊢
+  exact accept_iff_partial reg rb ct b exro hmod hwf h1
+
+/-- **two-phase reading, schema level.** For every composition-free schema (any defaults, conforming or not,
+required or not, counted or not) the validator with `DefaultsSet` accepts exactly when the value COMPLETED by the
+applicable defaults satisfies the schema read as a request. (`defaults_neutral` is the case where completing
+changes nothing for the verdict.) -/
+theorem completed_reading (exro : Bool) (s : RS) (v : V) (hc : compFree s = true) (hs : s.wf = true)
+    (hv : v.wf = true) : (visD true exro s v).isSome = true ↔ SatReq exro s (complete exro s v) := by
+  rw [visD_completed_visit exro s v hc hs hv]; exact visit_asreq_iff exro s _
+
+/-- harmless defaults: completing the value does not change whether it satisfies the schema -/
+theorem harmless_completion (exro : Bool) (s : RS) (v : V) (hc : compFree s = true) (hs : s.wf = true)
+    (hv : v.wf = true) (hh : dfltsHarmless exro s = true) :
+    SatReq exro s (complete exro s v) ↔ SatReq exro s v := by
+  rw [← completed_reading exro s v hc hs hv]
+  exact defaults_neutral exro s v hs hv (by simp [defaultsNeutral, hc, hh])
+
+/-- **C06 with default-setting ON, two-phase reading, whole decision.** For a composition-free selected schema,
+outside FormFieldUnparsable and NoBodyEncoder and inside the model: request-body validation accepts exactly when
+the value the body encodes, completed by the declared defaults, satisfies the schema read as a request. -/
+theorem accept_iff_completed_partial (reg : List (Str × DecK)) (rb : ReqBody) (ct : Str) (b : BodyIn) (exro : Bool)
+    (hmod : validateRequestBodyD reg rb ct b exro true ≠ .panic ∧ validateRequestBodyD reg rb ct b exro true ≠ .unmodelled)
+    (hwf : formEncsWF reg rb ct b = true)
+    (h1 : exclFormUnparsable reg rb ct b = false)
+    (h2 : exclNoBodyEncoder reg rb ct b exro true = false)
+    (hcf : caseCompFree reg rb ct b = true) (hw : caseWF reg rb ct b = true) :
+    (validateRequestBodyD reg rb ct b exro true).isOk = true ↔ AcceptD reg rb ct b exro true := by
+  unfold AcceptD
+  by_cases ht : b.text = []
+  · cases hr : rb.required <;> simp [validateRequestBodyD, ht, hr, Outcome.isOk]
+  · by_cases hc : rb.content = []
+    · simp [validateRequestBodyD, ht, hc, Outcome.isOk]
+    · rw [← contentGet_spec]
+      cases hs : contentGet rb.content ct with
+      | none => simp [validateRequestBodyD, ht, hc, hs, Outcome.isOk]
+      | some mt =>
+        cases hn : mt.schema with
+        | none => simp [validateRequestBodyD, ht, hc, hs, hn, Outcome.isOk]
+        | some s =>
+          have hd := decode_agrees reg rb ct b mt s ht hc hs hn h1 hwf
+          have hout : validateRequestBodyD reg rb ct b exro true =
+              (match decodeBody reg ct s mt.encs b with
+               | .err => .decodeErr | .panic => .panic | .unmodelled => .unmodelled
+               | .val v => validateValue (hasEncoder (lookup (base ct) reg)) exro true s v) := by
+            simp only [validateRequestBodyD, ht, hc, hs, hn, if_false]
+            cases decodeBody reg ct s mt.encs b <;> rfl
+          rw [hout] at hmod ⊢
+          cases hdec : decodeBody reg ct s mt.encs b with
+          | err =>
+            have := hd.2 hdec
+            simp [Outcome.isOk, ht, hc, hn, this]
+          | panic => simp [hdec] at hmod
+          | unmodelled => simp [hdec] at hmod
+          | val v =>
+            have hsv := hd.1 v hdec
+            have hdv := decodedValue_of_val reg rb ct b mt s v ht hc hs hn hdec
+            unfold caseCompFree at hcf
+            unfold caseWF at hw
+            unfold exclNoBodyEncoder at h2
+            simp only [hdv, Bool.true_and, Bool.and_eq_true] at hcf hw h2
+            have hvis := completed_reading exro s v hcf hw.1 hw.2
+            simp only [hdec] at hmod ⊢
+            unfold validateValue at hmod ⊢
+            simp only [Bool.not_true, Bool.false_eq_true, if_false] at hmod ⊢
+            by_cases hu : (dfltUnderNot s || (!hasEncoder (lookup (base ct) reg) && nestedDflt s && firesD exro s v)) = true
+            · simp [hu] at hmod
+            · simp only [hu, Bool.false_eq_true, if_false]
+              have h2' : (firesD exro s v && !hasEncoder (lookup (base ct) reg)) = false := by
+                cases hf : firesD exro s v <;> cases he : hasEncoder (lookup (base ct) reg) <;> simp_all
+              refine Iff.trans (b := SatReq exro s (complete exro s v)) ?_ ?_
+              · rw [← hvis]
+                cases visD true exro s v <;> simp [Outcome.isOk, h2']
+              · constructor
+                · intro hsat
+                  exact Or.inr ⟨ht, Or.inr ⟨mt, rfl, Or.inr ⟨s, v, hn, hsv, by simpa using hsat⟩⟩⟩
+                · rintro (⟨h0, _⟩ | ⟨_, h0 | ⟨mt', hmt', hsch | ⟨s', v', hs', hv', hsat⟩⟩⟩)
+                  · exact absurd h0 ht
+                  · exact absurd h0 hc
+                  · cases hmt'; rw [hn] at hsch; cases hsch
+                  · cases hmt'
+                    rw [hn] at hs'; cases hs'
+                    rw [hsv] at hv'; cases hv'
+                    simpa using hsat
+
+/-- the executable oracle of the two-phase reading decides it -/
+theorem acceptDB_iff (reg : List (Str × DecK)) (rb : ReqBody) (ct : Str) (b : BodyIn) (exro ds : Bool) :
+    acceptDB reg rb ct b exro ds = true ↔ AcceptD reg rb ct b exro ds := by
+  unfold acceptDB AcceptD
+  by_cases ht : b.text = []
+  · cases hr : rb.required <;> simp [ht, hr]
+  · by_cases hc : rb.content = []
+    · simp [ht, hc]
+    · rw [if_neg ht, if_neg hc]
+      have hA : ∀ P : Prop, ((b.text = [] ∧ rb.required = false) ∨ (b.text ≠ [] ∧ (rb.content = [] ∨ P))) ↔ P := by
+        intro P
+        constructor
+        · rintro (⟨h0, _⟩ | ⟨_, h0 | h0⟩)
+          · exact absurd h0 ht
+          · exact absurd h0 hc
+          · exact h0
+        · intro h; exact Or.inr ⟨ht, Or.inr h⟩
+      rw [hA]
+      cases hs : firstSome rb.content (candidates ct) with
+      | none => simp
+      | some mt =>
+        cases hn : mt.schema with
+        | none => simp only [hn, true_iff]; exact ⟨mt, rfl, Or.inl hn⟩
+        | some s =>
+          cases hd : specDecode reg ct s mt.encs b with
+          | none =>
+            simp only [hn, hd, Bool.false_eq_true, false_iff]
+            rintro ⟨mt', hmt', hsch | ⟨s', v', hs', hv', _⟩⟩
+            · cases hmt'; rw [hn] at hsch; cases hsch
+            · cases hmt'; rw [hn] at hs'; cases hs'; rw [hd] at hv'; cases hv'
+          | some v =>
+            simp only [hn, hd]
+            constructor
+            · intro h; exact ⟨mt, rfl, Or.inr ⟨s, v, hn, hd, (satReqB_iff exro s _).mp h⟩⟩
+            · rintro ⟨mt', hmt', hsch | ⟨s', v', hs', hv', hsat⟩⟩
+              · cases hmt'; rw [hn] at hsch; cases hsch
+              · cases hmt'; rw [hn] at hs'; cases hs'; rw [hd] at hv'; cases hv'
+                exact (satReqB_iff exro s _).mpr hsat
+
+/-- F-C06-4 (NoBodyEncoder): `b=x` against `{a: integer default 1, b: string}` sent as
+application/x-www-form-urlencoded — the value `{b: "x"}` satisfies the schema, the property accepts; with
+default-setting on the model (as the code) answers "rewriting failed"; with defaults skipped it accepts; the same
+body as JSON is accepted in both settings -/
+theorem witness_noBodyEncoder :
+    let s := exObjD [(exStr "a", exIntD false false (some (.int 1))), (exStr "b", exString)] []
+    let rb : ReqBody := ⟨true, [(exForm, ⟨some s, []⟩)]⟩
+    let b := exBody "b=x" none (some [(exStr "b", [exStr "x"])])
+    let rbJ : ReqBody := ⟨true, [(exStr "application/json", ⟨some s, []⟩)]⟩
+    let bJ := exBody "{\"b\":\"x\"}" (some (.obj [(exStr "b", .str (exStr "x"))])) none
+    exclNoBodyEncoder registry rb exForm b false true = true ∧
+    validateRequestBodyD registry rb exForm b false true = .rewriteErr ∧ acceptB registry rb exForm b false = true ∧
+    validateRequestBodyD registry rb exForm b false false = .ok ∧
+    validateRequestBodyD registry rbJ (exStr "application/json") bJ false true = .ok ∧
+    exclNoBodyEncoder registry rbJ (exStr "application/json") bJ false true = false := by decide
+
+/-- non-vacuity of `accept_iff_partial_D` with default-setting ON: every hypothesis holds, a default fires, both verdicts -/
+example :
+    let s := exObjD [(exStr "a", exIntD false false (some (.int 1))), (exStr "id", exIntD true false (some (.int 9))), (exStr "b", exString)] [exStr "b", exStr "id"]
+    let rb : ReqBody := ⟨true, [(exStr "application/json", ⟨some s, []⟩)]⟩
+    let ct := exStr "application/json"
+    let good := exBody "{\"b\":\"x\"}" (some (.obj [(exStr "b", .str (exStr "x"))])) none
+    let bad := exBody "{}" (some (.obj [])) none
+    caseNeutral registry rb ct good false true = true ∧ caseWF registry rb ct good = true ∧
+    exclNoBodyEncoder registry rb ct good false true = false ∧
+    validateRequestBodyD registry rb ct good false true = .ok ∧ acceptB registry rb ct good false = true ∧
+    caseNeutral registry rb ct bad false true = true ∧
+    validateRequestBodyD registry rb ct bad false true = .schemaErr ∧ acceptB registry rb ct bad false = false := by decide
 
 end KinModel.Body
